@@ -331,6 +331,22 @@ pub fn oracle(c: &EventCase, cx: &mut CaseCtx) -> Result<(), String> {
             cx.class(if same_hash_form { "redacted_copy_hash_still_valid" } else { "redacted_copy_hash_invalid" });
             (redacted, map.clone(), Some(if same_hash_form { "All" } else { "Signatures" }))
         }
+        // the v11 corner (third_party_invite without `signed`): whether redaction leaves `{}` or
+        // nothing is not spelled out, but whichever ruma does, its own redacted copy of the event it
+        // signed must still carry valid signatures
+        Post::Redact(_) => {
+            let redacted = match to_ref(&CanonicalJsonValue::Object(redact(obj.clone(), &rules.redaction, None).map_err(|e2| format!("redact failed: {e2}"))?)) {
+                V::Obj(m) => m,
+                _ => unreachable!(),
+            };
+            if required_signers(v, &redacted).as_ref() != Some(&required) {
+                cx.class("redaction_changes_required_signers_unasserted");
+                cx.nontrivial_if(nontrivial);
+                return Ok(());
+            }
+            cx.class("v11_tpi_corner_redacted_copy");
+            (redacted, map.clone(), Some("NotErr"))
+        }
         _ => (signed.clone(), map.clone(), None),
     };
     if let Some(exp) = expect {
@@ -341,6 +357,7 @@ pub fn oracle(c: &EventCase, cx: &mut CaseCtx) -> Result<(), String> {
             ("Err", Err(_)) => true,
             ("All", Ok(Verified::All)) => true,
             ("Signatures", Ok(Verified::Signatures)) => true,
+            ("NotErr", Ok(_)) => true,
             _ => false,
         };
         if !ok {
@@ -419,7 +436,7 @@ pub fn run(ck: &mut Check) {
                 2 => any::<u16>().prop_map(Post::WrongKeyForRequired),
                 2 => (0u8..2).prop_map(Post::Redact),
             ];
-            (pdu::pdu(), [crate::keys::seed32(), crate::keys::seed32(), crate::keys::seed32()], 0u8..3, "[A-Za-z0-9_]{1,6}", attack, 0u8..3, (1u8..=11, 0usize..3, 1usize..3, 0u8..3, any::<bool>())).prop_map(|(mut pdu, seeds, der_form, key_version, post, two_keys, (version, sender_srv, other_off, shape, flag))| {
+            (pdu::pdu(), [crate::keys::seed32(), crate::keys::seed32(), crate::keys::seed32()], 0u8..3, "[A-Za-z0-9_]{1,6}", attack, 0u8..3, (1u8..=11, 0usize..3, 1usize..3, 0u8..4, any::<bool>())).prop_map(|(mut pdu, seeds, der_form, key_version, post, two_keys, (version, sender_srv, other_off, shape, flag))| {
                 let e = &mut pdu.event;
                 let sender = pdu::user(sender_srv, 1);
                 let other = pdu::user(sender_srv + other_off, 2);
@@ -444,6 +461,22 @@ pub fn run(ck: &mut Check) {
                         content.insert("third_party_invite".to_owned(), V::Obj(t));
                         e.insert("state_key".into(), V::Str(other.clone()));
                     }
+                    // member event carrying a third_party_invite without `signed` (kept as far as
+                    // `signed` goes from v11 on: nothing of it is left), under every membership
+                    3 => {
+                        pdu.version = 9 + version % 3;
+                        let membership = ["join", "leave", "ban", "invite", "knock"][(version as usize + other_off) % 5];
+                        content.insert("membership".to_owned(), V::Str(membership.into()));
+                        let mut t = BTreeMap::new();
+                        if flag {
+                            t.insert("display_name".to_owned(), V::Str("d".into()));
+                        }
+                        if sender_srv == 0 {
+                            t.insert("x_extra".to_owned(), V::Int(1));
+                        }
+                        content.insert("third_party_invite".to_owned(), V::Obj(t));
+                        e.insert("state_key".into(), V::Str(if membership == "join" || membership == "knock" { sender.clone() } else { other.clone() }));
+                    }
                     // v1-2: event id on another server than the sender's
                     _ => {
                         pdu.version = 1 + version % 2;
@@ -454,7 +487,7 @@ pub fn run(ck: &mut Check) {
                 }
                 if pdu.version >= 3 {
                     e.remove("event_id");
-                } else if shape != 2 {
+                } else if shape < 2 {
                     e.insert("event_id".into(), V::Str(format!("$own:{}", pdu::SERVERS[sender_srv % 3])));
                 }
                 e.insert("content".into(), V::Obj(content));
